@@ -136,7 +136,7 @@ func verifC16CommandFaults() {
 		}
 		p.Command(&nsq.Command{Name: []byte("IDENTIFY"), Body: []byte("{}")})
 	})
-	steps := verifrt.Bound("roundTrips", 2, 3)
+	steps := verifrt.Bound("roundTrips", 2, 4)
 	for i := 0; i < steps; i++ {
 		var cmd *nsq.Command
 		ping := verifrt.Choice("cmd", 2) == 1
@@ -246,7 +246,7 @@ func verifC16CommandFaults() {
 // ---------------------------------------------------------------------------------------------
 // C16 part 3: nsqd's connect callback (nsqd/lookup.go connectCallback) = full re-registration.
 //
-// A shell nsqd with 0..2 topics x 0..2 channels connects to a lookupd that has no listing for
+// A shell nsqd with 0..2 (thorough: 0..3) topics x 0..2 (0..3) channels connects to a lookupd that has no listing for
 // it (fresh or restarted). Oracle: without a fault the lookupd afterwards lists nsqd - under the
 // identity nsqd is configured with - as producer of EXACTLY its topics and channels (a topic
 // without channels included), and nsqd has learnt the lookupd's HTTP address (needed for the
@@ -258,8 +258,8 @@ func verifC16CommandFaults() {
 
 func VerifC16_ConnectCallbackRegistersAll() { verifrt.Atomic(verifC16ConnectCallback) }
 
-var verifTopicNames = []string{"t0", "t1"}
-var verifChanNames = []string{"c0", "c1"}
+var verifTopicNames = []string{"t0", "t1", "t2"}
+var verifChanNames = []string{"c0", "c1", "c2"}
 
 func verifC16Nsqd(w *verifWorld) *NSQD {
 	verifC16Stubs()
@@ -281,12 +281,12 @@ func verifC16ConnectCallback() {
 	n := verifC16Nsqd(w)
 	// state generator: any nsqd state with 0..2 topics x 0..2 channels (connectCallback only
 	// reads the maps and the names, so the objects are plain - no pumps, no queues)
-	nT := verifrt.Choice("topics", 3)
+	nT := verifrt.Choice("topics", 1+verifrt.Bound("topics", 2, 3))
 	pairs := 0
 	for i := 0; i < nT; i++ {
 		t := &Topic{name: verifTopicNames[i], channelMap: map[string]*Channel{}, nsqd: n}
 		n.topicMap[t.name] = t
-		nC := verifrt.Choice("channels", 3)
+		nC := verifrt.Choice("channels", 1+verifrt.Bound("channelsPerTopic", 2, 3))
 		for j := 0; j < nC; j++ {
 			t.channelMap[verifChanNames[j]] = &Channel{topicName: t.name, name: verifChanNames[j], nsqd: n}
 			pairs++
@@ -511,7 +511,7 @@ func VerifC16_LookupLoopChurn() { verifrt.Atomic(verifC16LoopChurn) }
 func verifC16LoopChurn() {
 	r := verifStartLoop(1, 0)
 	r.checkRest("start")
-	steps := verifrt.Bound("churnSteps", 3, 4)
+	steps := verifrt.Bound("churnSteps", 3, 5)
 	deleted, created := false, false
 	for i := 0; i < steps; i++ {
 		k := verifrt.Choice("op", 5)
@@ -538,9 +538,13 @@ func verifC16LoopChurn() {
 func VerifC16_LookupLoopFaults() { verifrt.Atomic(verifC16LoopFaults) }
 
 func verifC16LoopFaults() {
-	r := verifStartLoop(1, verifrt.Bound("faults", 1, 1))
-	r.checkRest("start")
+	faults := verifrt.Bound("faults", 1, 1)
 	steps := verifrt.Bound("churnSteps", 2, 3)
+	if verifrt.Bound("alsoTwoFaultsOneStep", 0, 1) == 1 && verifrt.Choice("shape", 2) == 1 {
+		faults, steps = 2, 1
+	}
+	r := verifStartLoop(1, faults)
+	r.checkRest("start")
 	for i := 0; i < steps; i++ {
 		k := verifrt.Choice("op", 5)
 		if i == 0 {
